@@ -19,6 +19,7 @@ import (
 	"encoding/binary"
 	"encoding/hex"
 	"fmt"
+	"io"
 	"math/big"
 	"net"
 	"strings"
@@ -163,6 +164,26 @@ func (e *kdfEnv) runE2E(k e2eCase, rep int) {
 		}
 	}()
 	wg.Wait()
+	// application data in both directions, then the zcrypto endpoint's exporter (the exporter object was
+	// created during the handshake; it is used only now)
+	type ekmOut struct {
+		label string
+		ctx   []byte
+		out   []byte
+	}
+	var ekms []ekmOut
+	if cerr == nil && serr == nil && cpanic == nil {
+		if appDataRoundTrip(client, server) {
+			cs := client.ConnectionState()
+			for _, q := range []ekmOut{{label: "EXPORTER-c26-one", ctx: nil}, {label: "EXPORTER-c26-two", ctx: []byte("ctx")}} {
+				if pi := core.Guard(func() { q.out, _ = cs.ExportKeyingMaterial(q.label, q.ctx, 40) }); pi == nil && q.out != nil {
+					ekms = append(ekms, q)
+				}
+			}
+		} else {
+			c.Count("e2e_application_data_failed", 1)
+		}
+	}
 	a.Close()
 	b.Close()
 	c.Eval(1)
@@ -272,6 +293,16 @@ func (e *kdfEnv) runE2E(k e2eCase, rep int) {
 		c.Violation(key, detail, caseID, input)
 		return
 	}
+	// ConnectionState.ExportKeyingMaterial of the zcrypto client, after application data, vs RFC 5705 over the logged master secret
+	for _, q := range ekms {
+		want, _ := p.Exporter(clientMaster, ch.Random, sh.Random, q.label, q.ctx, q.ctx != nil, 40)
+		c.Eval(1)
+		c.Count("e2e_exporter_compared", 1)
+		if !bytes.Equal(q.out, want) {
+			input["exporter_label"], input["exporter_zcrypto"], input["exporter_reference"] = q.label, hx(q.out), hx(want)
+			c.Violation("kdf:e2e:exporter:"+versionName(sh.Version), fmt.Sprintf("%s: ConnectionState.ExportKeyingMaterial(%q) = %x, RFC 5705 over the logged master secret %x", k, q.label, q.out, want), caseID, input)
+		}
+	}
 	// client Finished under the reference key block (AES-GCM suites)
 	if sp.FixedIV != 4 {
 		return
@@ -305,3 +336,37 @@ func (e *kdfEnv) runE2E(k e2eCase, rep int) {
 		c.Violation("kdf:e2e:client-verify-data", fmt.Sprintf("%s: Finished plaintext %s, reference verify_data %s", k, hx(pt), hx(wantVD)), caseID, input)
 	}
 }
+
+// rw is the part of a TLS connection the application-data exchange needs.
+type rw interface {
+	Read([]byte) (int, error)
+	Write([]byte) (int, error)
+}
+
+// appDataRoundTrip sends "ping" client→server and "pong" server→client over the (synchronous) pipe.
+func appDataRoundTrip(client, server rw) bool {
+	okc := make(chan bool, 1)
+	go func() {
+		buf := make([]byte, 4)
+		if _, err := io.ReadFull(readerOf(server), buf); err != nil || string(buf) != "ping" {
+			okc <- false
+			return
+		}
+		_, err := server.Write([]byte("pong"))
+		okc <- err == nil
+	}()
+	if _, err := client.Write([]byte("ping")); err != nil {
+		return false
+	}
+	buf := make([]byte, 4)
+	if _, err := io.ReadFull(readerOf(client), buf); err != nil || string(buf) != "pong" {
+		return false
+	}
+	return <-okc
+}
+
+type readerFunc func([]byte) (int, error)
+
+func (f readerFunc) Read(p []byte) (int, error) { return f(p) }
+
+func readerOf(x rw) io.Reader { return readerFunc(x.Read) }
